@@ -1321,11 +1321,36 @@ pub fn enc_res<T>(r: &Result<T, png::EncodingError>) -> String {
         Err(png::EncodingError::IoError(e)) => io_res(e),
         Err(png::EncodingError::Format(f)) => match format_name(&f.to_string()) {
             Some(n) => format!("err:{}", n),
-            None => format!("err:format?{}", f.to_string().replace(' ', "_")),
+            // a message the harness does not know (reworded): still a format error
+            None => "err:format".to_string(),
         },
         Err(png::EncodingError::Parameter(_)) => "err:imageBufferSize".into(),
         Err(png::EncodingError::LimitsExceeded) => "err:limits".into(),
     }
+}
+
+/// The NAME of a format error is not an observable of any property (the harness can only read it off the Display text, which a
+/// harmless rewording changes; which of two applicable errors is reported first may change with a harmless reordering of checks):
+/// every `err:<format error name>` token becomes `err:format`.  Used when a comparison of exact names fails - the two sides then
+/// have to agree on WHICH calls fail with a format error (as opposed to ok / io / limits / parameter / panic).
+pub fn loosen(s: &str) -> String {
+    const NAMES: [&str; 13] = ["zeroWidth", "zeroHeight", "zeroFrames", "invalidColor", "noPalette", "writtenTooMuch", "notAnimated", "outOfBounds", "endReached", "missingFrames", "missingData", "unrecoverable", "badText"];
+    let mut out = String::with_capacity(s.len());
+    let mut rest = s;
+    while let Some(i) = rest.find("err:") {
+        out.push_str(&rest[..i + 4]);
+        rest = &rest[i + 4..];
+        let end = rest.find(|c: char| c == ',' || c == ']' || c == '[' || c == ' ' || c == '/' || c == ';').unwrap_or(rest.len());
+        let name = &rest[..end];
+        if NAMES.contains(&name) || name.starts_with("format") {
+            out.push_str("format");
+        } else {
+            out.push_str(name);
+        }
+        rest = &rest[end..];
+    }
+    out.push_str(rest);
+    out
 }
 
 /// line number in encoder.rs of a panic message produced by `guarded` (`msg @ file:line`)
@@ -1536,7 +1561,7 @@ impl<'c> Rt<'c> {
                     .map(|x| enc_res(&x));
                     if let Ok(sres) = r.as_deref() {
                         // same documented rule for the stream writer's own copy of the frame control
-                        if !self.shadow_unreliable && matches!(o, SetOp::Dim(..) | SetOp::Pos(..)) && ss.sfc.is_some() && matches!(sres, "ok" | "err:outOfBounds" | "err:zeroWidth" | "err:zeroHeight") {
+                        if !self.shadow_unreliable && matches!(o, SetOp::Dim(..) | SetOp::Pos(..)) && ss.sfc.is_some() && (sres == "ok" || loosen(sres) == "err:format") {
                             let want = rect_set_ok(&ss.sfc, self.sh.cw, self.sh.ch, o);
                             if want != (sres == "ok") {
                                 self.obs.api_faults.push((format!("setter/stream-rect-{}", if want { "refused-inside-canvas" } else { "accepted-outside-canvas" }),
@@ -1723,7 +1748,7 @@ pub fn exec(case: &Case) -> Observed {
                     if let Step::Set(o) = step {
                         // the documented rule for the two rectangle setters, evaluated on the shadow frame control (independent of the
                         // model): inside the canvas and not empty <=> accepted
-                        if !rt.stream_session_seen && !rt.shadow_unreliable && matches!(o, SetOp::Dim(..) | SetOp::Pos(..)) && rt.sh.fc.is_some() && matches!(s.as_str(), "ok" | "err:outOfBounds" | "err:zeroWidth" | "err:zeroHeight") {
+                        if !rt.stream_session_seen && !rt.shadow_unreliable && matches!(o, SetOp::Dim(..) | SetOp::Pos(..)) && rt.sh.fc.is_some() && (s == "ok" || loosen(&s) == "err:format") {
                             let want = rect_set_ok(&rt.sh.fc, rt.sh.cw, rt.sh.ch, o);
                             if want != (s == "ok") {
                                 rt.obs.api_faults.push((format!("setter/rect-{}", if want { "refused-inside-canvas" } else { "accepted-outside-canvas" }),
@@ -2787,6 +2812,10 @@ pub fn compare_model(case: &Case, obs: &Observed, ans: &str, table: &Table) -> (
     };
     let pre = if stream { "stream" } else { "writer" };
     let mut diff = |what: &str, real: String, model: String| {
+        if real != model && loosen(&real) == loosen(&model) {
+            // equal up to the names of format errors (see `loosen`): not a disagreement about anything a property observes
+            return;
+        }
         if real != model {
             // long skeletons: show the first entry that differs
             let (r, m) = if real.len() > 300 || model.len() > 300 {
@@ -2896,8 +2925,8 @@ pub fn repaired_misuse_oracles(case: &Case, obs: &Observed) -> Vec<Finding> {
     if case.cfg.fc.is_some() && !obs.panicked() {
         match expected_with_info_err(&case.cfg) {
             Some(e) => {
-                if obs.hdr != e {
-                    f.push(("oracle", "misuse-accepted/with-info-fctl".into(), format!("Encoder::with_info answered `{}` for an inconsistent frame control, expected `{}`", obs.hdr, e)));
+                if loosen(&obs.hdr) != loosen(e) {
+                    f.push(("oracle", "misuse-accepted/with-info-fctl".into(), format!("Encoder::with_info answered `{}` for an inconsistent frame control, expected `{}` (or another format error)", obs.hdr, e)));
                 } else if !obs.bytes.is_empty() {
                     f.push(("oracle", "misuse-accepted/with-info-fctl".into(), format!("Encoder::with_info refused the configuration but {} bytes reached the sink", obs.bytes.len())));
                 }
@@ -2915,7 +2944,7 @@ pub fn repaired_misuse_oracles(case: &Case, obs: &Observed) -> Vec<Finding> {
                 f.push(("oracle", format!("misuse-accepted/{}", m), format!("{} ({}) returned Ok although it is misuse: {}", c.kind.name(), c.what, m)));
             }
             // the refused `Encoder` calls of `Cfg::mis`: the documented error, nothing else
-            if c.kind == CallKind::EncoderSetter && c.res != enc_misuse_expected(&c.what) {
+            if c.kind == CallKind::EncoderSetter && loosen(&c.res) != loosen(enc_misuse_expected(&c.what)) {
                 let key = if c.res == "ok" { format!("misuse-accepted/{}", m) } else { format!("misuse-wrong-error/{}", m) };
                 f.push(("oracle", key, format!("Encoder::{} answered `{}`, expected `{}`", c.what, c.res, enc_misuse_expected(&c.what))));
             }
